@@ -323,6 +323,20 @@ def handler : Handler := fun op j =>
     match normAxes nd (fInts? j "axes") with
     | none => some (err "value")
     | some l => some (ok (jNs l))
+  | "dftaxes" => do
+    -- N-d DFT over a subset of the axes (no padding), the definition of C04_dft_axes_inv
+    let dims ← fNats? j "dims"; let axes ← fNats? j "axes"; let norm ← fStr? j "norm"; let inv ← fBool? j "inv"
+    let N := prodL dims
+    let ws : List (Option Cx) := (List.range dims.length).map (fun a => if axes.contains a then some (rootC (dims.getD a 1) inv) else none)
+    let T := dftAxesSize dims ws
+    let s : Float := match norm, inv with
+      | "ortho", _ => 1.0 / Float.sqrt T.toFloat
+      | "forward", false => 1.0 / T.toFloat
+      | "forward", true => 1.0
+      | _, false => 1.0
+      | _, true => 1.0 / T.toFloat
+    let basis (q : Nat) : V Cx := fun p => if p = q then 1 else 0
+    some (ok (jCMat (fun p q => cscale s * dftAxes dims ws (basis q) p) N N))
   | "dftinit" => do
     let shape ← fNats? j "shape"
     let axes := fInts? j "axes"
